@@ -40,19 +40,10 @@ def equivalent(sa, sb, rng, hints=()):
     if r["diffs"]:
         s0, a, b = r["diffs"][0]
         return "diff", f"value {a} became {b} at {X.sigma_json(s0)}"
-    if r["undef_a"] != r["undef_b"]:
-        for s0 in sig:
-            da = db = True
-            try:
-                X.ev(sa, s0)
-            except X.Undef:
-                da = False
-            try:
-                X.ev(sb, s0)
-            except X.Undef:
-                db = False
-            if da != db:
-                return "diff", f"defined only {'before' if da else 'after'} re-parsing at {X.sigma_json(s0)}"
+    if r["undef_a"] or r["undef_b"]:
+        dd = X.definedness_differs(sa, sb, sig)
+        if dd:
+            return "diff", f"defined only {'before' if dd[1] == 'defined' else 'after'} re-parsing at {X.sigma_json(dd[0])}"
     if r["common"] >= (3 if names else 1):
         return "same", ""
     return "skip", f"only {r['common']} comparable points"
